@@ -6,7 +6,7 @@ CONSTANTS
   Counts <- Counts12
   CfgSet <- CfgRes
   MODE = "res"
-  Fails <- Fail03
+  Fails <- Fail02
   MAXHOST = 2
   BUG_CREATE_LEAK = TRUE
   BUG_PROBE_LEAK = TRUE
